@@ -875,12 +875,14 @@ class ktensor:
                 endpt = breakpt + 1
             else:
                 warnings.warn(f"Trouble fixing signs for mode {r}")
-                if (breakpt < RB) and (
+                # breakpt is the 0-based index of the last negative score, so
+                # breakpt + 1 scores are negative; flip one more or one fewer
+                if (breakpt + 1 < N) and (
                     -sort_sgn_score[breakpt] > sort_sgn_score[breakpt + 1]
                 ):
-                    endpt = breakpt + 1
+                    endpt = breakpt + 2
                 else:
-                    endpt = breakpt - 1
+                    endpt = breakpt
 
             # Flip the signs
             for i in range(endpt):
